@@ -68,6 +68,7 @@ fn handle(req: &serde_json::Value) -> serde_json::Value {
             return out.into();
         }
     };
+    out.insert("options_debug".into(), format!("{:?}", options).into());
     let cm: Lrc<SourceMap> = Default::default();
     let comments = SingleThreadedComments::default();
     let diags = Arc::new(Mutex::new(vec![]));
